@@ -34,7 +34,11 @@ def make_record(m, a, b, html):
         return None
     dab = parse(m, a + '\n' + b, html)
     return {'law': 'concat', 'a': proj.blocks(da), 'b': proj.blocks(db), 'ab': proj.blocks(dab),
-            'nA': a.count('\n'), 'defsAB': proj.defs(dab)}
+            'nA': len(a.splitlines()), 'defsAB': proj.defs(dab)}       # (a str is cut into lines the way str.splitlines() cuts it)
+
+
+SPECIAL = ['plain text\n', 'Caf\u00e9 au lait\n', '# Caf\u00e9\n', '> \u00bfqu\u00e9?\n', 'one\x0ctwo\n', 'first\x0c# second\n', '- a\x0b- b\n', 'one\x0c***\n',
+           'a\x1cb\n', 'x\x1d---\n', 'p\x1e> q\n', 'na\u00efve\n', '\u4e2d\u6587\n', 'a\u2028b\n', 'a\x85# b\n', '***\n', '| a |\n|---|\n| \u00e9 |\n', 'a\rb\n']
 
 
 def run():
@@ -50,6 +54,19 @@ def run():
     pool = [t for t in inputs.texts(ck.rng, n_pool) + docgen.texts(ck, 300 if ck.tier == 'quick' else 5000)
             + blockparse.texts(ck, 500 if ck.tier == 'quick' else 8000) if len(t) < 400]
     recs, meta = [], []
+    # all ordered pairs over a short list of "special" texts: whether a part holds characters of another class (non-ASCII letters,
+    # the ASCII control characters str.splitlines() breaks at) must not change how the OTHER part is cut into lines and blocks
+    for a in SPECIAL:
+        for b in SPECIAL:
+            for html in (False, True):
+                try:
+                    r = make_record(m, a + '\n' if not a.endswith('\n') else a, b, html)
+                except Exception:
+                    r = None
+                if r is not None:
+                    recs.append(r)
+                    meta.append((a, b, html))
+    ck.extra['special_pairs'] = len(recs)
     tried = 0
     while len(recs) < n_pairs and tried < n_pairs * 4:
         tried += 1
